@@ -275,6 +275,135 @@ struct Drv {
     template<class VV = V>
     typename std::enable_if<!std::is_signed<typename VV::scalar>::value>::type sweep_signed32() {}
 
+    //--------------------------------------------------------------------
+    // Exhaustive sweep of all 2^32 operand PAIRS of the 16-bit types (thorough
+    // tier) against the C++ operators on the element type (the reference the
+    // properties name); disagreements are forwarded to TLC.
+    //--------------------------------------------------------------------
+    template<class F, class R>
+    void sweep2(const char* op, bool skip_undefined_div, F f, R ref) {
+        set_label(tn, op);
+        unsigned long diffs = 0;
+        static std::vector<S> out(65536);
+        for (unsigned av = 0; av < 65536; ++av) {
+            const S a = S(US(av));
+            int sg = guarded([&] {
+                for (unsigned bv = 0; bv < 65536; bv += N) {
+                    A x, y;
+                    for (unsigned j = 0; j < N; ++j) {
+                        x[j] = a;
+                        y[j] = S(US(bv + j));
+                        if (skip_undefined_div && (y[j] == 0 || min_over_m1(x[j], y[j]))) y[j] = S(1);
+                    }
+                    opaque(x);
+                    opaque(y);
+                    auto rv = avel::to_array(f(V(x), V(y)));
+                    std::memcpy(&out[bv], &rv, sizeof(rv));
+                }
+            });
+            for (unsigned bv = 0; bv < 65536; ++bv) {
+                S b = S(US(bv));
+                if (skip_undefined_div && (b == 0 || min_over_m1(a, b))) continue;
+                if (sg || US(out[bv]) != US(ref(a, b))) {
+                    if (++diffs <= 200000)
+                        emit(Fact(op, K).val("a", a).val("b", b).val("r", sg ? S(0) : out[bv]).signal(sg), tn, int(bv % N), "sweep");
+                }
+            }
+        }
+        std::fprintf(stderr, "vh-sweep: %s %s inputs=4294967296 disagreements=%lu\n", tn, op, diffs);
+    }
+    template<class F, class R>
+    void sweep2_pred(const char* op, F f, R ref) {
+        set_label(tn, op);
+        unsigned long diffs = 0;
+        static std::vector<unsigned char> out(65536);
+        for (unsigned av = 0; av < 65536; ++av) {
+            const S a = S(US(av));
+            int sg = guarded([&] {
+                for (unsigned bv = 0; bv < 65536; bv += N) {
+                    A x, y;
+                    for (unsigned j = 0; j < N; ++j) {
+                        x[j] = a;
+                        y[j] = S(US(bv + j));
+                    }
+                    opaque(x);
+                    opaque(y);
+                    int r[N];
+                    mask_lanes(f(V(x), V(y)), r);
+                    for (unsigned j = 0; j < N; ++j) out[bv + j] = (unsigned char) r[j];
+                }
+            });
+            for (unsigned bv = 0; bv < 65536; ++bv) {
+                S b = S(US(bv));
+                if (sg || (out[bv] != 0) != bool(ref(a, b))) {
+                    if (++diffs <= 200000)
+                        emit(Fact(op, K).val("a", a).val("b", b).num("r", sg ? 0 : out[bv]).signal(sg), tn, int(bv % N), "sweep");
+                }
+            }
+        }
+        std::fprintf(stderr, "vh-sweep: %s %s inputs=4294967296 disagreements=%lu\n", tn, op, diffs);
+    }
+    // quotient and remainder together, so that TLC can judge the pair with DivRel
+    void sweep2_div() {
+        set_label(tn, "div");
+        unsigned long diffs = 0;
+        static std::vector<S> oq(65536), orr(65536);
+        for (unsigned av = 0; av < 65536; ++av) {
+            const S a = S(US(av));
+            int sg = guarded([&] {
+                for (unsigned bv = 0; bv < 65536; bv += N) {
+                    A x, y;
+                    for (unsigned j = 0; j < N; ++j) {
+                        x[j] = a;
+                        y[j] = S(US(bv + j));
+                        if (y[j] == 0 || min_over_m1(x[j], y[j])) y[j] = S(1);
+                    }
+                    opaque(x);
+                    opaque(y);
+                    auto q = avel::to_array(V(x) / V(y));
+                    auto r = avel::to_array(V(x) % V(y));
+                    std::memcpy(&oq[bv], &q, sizeof(q));
+                    std::memcpy(&orr[bv], &r, sizeof(r));
+                }
+            });
+            for (unsigned bv = 0; bv < 65536; ++bv) {
+                S b = S(US(bv));
+                if (b == 0 || min_over_m1(a, b)) continue;
+                if (sg || oq[bv] != S(a / b) || orr[bv] != S(a % b)) {
+                    if (++diffs <= 200000)
+                        emit(Fact("div", K).val("a", a).val("b", b).val("q", sg ? S(0) : oq[bv]).val("r", sg ? S(0) : orr[bv]).signal(sg), tn, int(bv % N), "sweep");
+                }
+            }
+        }
+        std::fprintf(stderr, "vh-sweep: %s div inputs=4294967296 disagreements=%lu\n", tn, diffs);
+    }
+
+    template<class VV = V>
+    typename std::enable_if<sizeof(typename VV::scalar) == 2>::type sweep16(const std::string& which) {
+        typedef long long LL;
+        if (which == "arith") {
+            sweep2("add", false, [](V a, V b) { return a + b; }, [](S a, S b) { return S(US(US(a) + US(b))); });
+            sweep2("sub", false, [](V a, V b) { return a - b; }, [](S a, S b) { return S(US(US(a) - US(b))); });
+            sweep2("mul", false, [](V a, V b) { return a * b; }, [](S a, S b) { return S(US(unsigned(US(a)) * unsigned(US(b)))); });
+        } else if (which == "cmp") {
+            sweep2_pred("eq", [](V a, V b) { return a == b; }, [](S a, S b) { return a == b; });
+            sweep2_pred("ne", [](V a, V b) { return a != b; }, [](S a, S b) { return a != b; });
+            sweep2_pred("lt", [](V a, V b) { return a < b; }, [](S a, S b) { return a < b; });
+            sweep2_pred("le", [](V a, V b) { return a <= b; }, [](S a, S b) { return a <= b; });
+            sweep2_pred("gt", [](V a, V b) { return a > b; }, [](S a, S b) { return a > b; });
+            sweep2_pred("ge", [](V a, V b) { return a >= b; }, [](S a, S b) { return a >= b; });
+        } else if (which == "select") {
+            sweep2("min", false, [](V a, V b) { return avel::min(a, b); }, [](S a, S b) { return a < b ? a : b; });
+            sweep2("max", false, [](V a, V b) { return avel::max(a, b); }, [](S a, S b) { return a < b ? b : a; });
+            sweep2("average", false, [](V a, V b) { return avel::average(a, b); }, [](S a, S b) { return S((LL(a) + LL(b)) / 2); });
+            sweep2("midpoint", false, [](V a, V b) { return avel::midpoint(a, b); }, [](S a, S b) { return S(LL(a) + (LL(b) - LL(a)) / 2); });
+        } else if (which == "div") {
+            sweep2_div();
+        }
+    }
+    template<class VV = V>
+    typename std::enable_if<sizeof(typename VV::scalar) != 2>::type sweep16(const std::string&) {}
+
     // C03: mask(vector) is set exactly where the lane is non-zero
     void tomask() {
         un_pred("nz", "op", [](V a) { return M(a); });
@@ -840,6 +969,7 @@ int main(int argc, char** argv) {
         else if (family == "select") d.select();                                 \
         else if (family == "tomask") d.tomask();                                 \
         else if (family == "sweep32") d.sweep32();                               \
+        else if (family.compare(0, 8, "sweep16_") == 0) d.sweep16(family.substr(8)); \
     }
     if (!std::getenv("VH_SCALAR_ONLY")) {
         VH_INT_TYPES(RUN_V)
